@@ -339,6 +339,8 @@ func sigKind(kind string) string {
 		return "remove-zeroed"
 	case "pl-remove-zero-partial-only":
 		return "pl-remove-zeroed-only"
+	case "pl-remove-header-zero-partial", "pl-remove-header-zeroed":
+		return "pl-remove-zeroed"
 	case "remove-zero-partial-only":
 		return "remove-zeroed-only"
 	case "full-noindex-rolled":
